@@ -57,6 +57,8 @@ func c14(c *Ctx) {
 	r.Rule("C14.key-fresh", "generateChallengeKey reads 16 bytes from crypto/rand.Reader with io.ReadFull, returns its error, encodes with base64.StdEncoding and writes no package state; DialContext puts exactly that key into Sec-WebSocket-Key")
 	r.Rule("C14.url-guards", "every path reaching the proxy function, the dialer selection or the dial call carries scheme in {ws, wss} and URL.User == nil; only the scheme of the parsed URL is rewritten")
 	r.Rule("C14.request-shape", "the request is GET HTTP/1.1 for the parsed URL with Host = URL.Host; Upgrade/Connection/Sec-WebSocket-Key/Sec-WebSocket-Version are set to websocket/Upgrade/K/13; Sec-WebSocket-Protocol only with Subprotocols; the extension offer only with EnableCompression; caller headers are copied only when their (canonical) name is not one of the protocol-owned names")
+	r.Rule("C14.stateless", "one dial shares nothing with another: no package-level variable is written after initialisation (challenge keys, parsed headers and TLS configurations are per call; same rule as C11.globals)")
+	packageStateless(c, "C14.stateless")
 	r.Rule("C14.adopt", "the subprotocol adopted is the reply's Sec-Websocket-Protocol value")
 	r.Assume("net/http.Request.Write and http.ReadResponse serialise/parse HTTP/1.1 correctly; header map keys of the reply are canonical")
 
